@@ -75,7 +75,7 @@ def parseFile (text : String) : Except Err (List PNode) := do
   let mut code : List Nat := []
   let mut codeOpen := false
   for ll in lls do
-    if ll.cat == .cppDirective then
+    if ll.isDirective then
       if codeOpen then
         nodes := nodes ++ [{ kind := .code, lines := code }]
         code := []; codeOpen := false
